@@ -9,6 +9,7 @@ from .. import routes as RT
 from .. import symx as SX
 from ..model import is_self_attr, method_name, strip_doc
 from ..symx import safe_simplify
+from .. import shapes as SH
 from ..report import AnalysisError, Ctx, norm_src
 from . import c09
 
@@ -76,23 +77,16 @@ def check_index(ctx):
         okm = len(ms) == 1 and ms[0][1] == "self.V_reward[%s]" % k
         ctx.ob("R10-IDX", okm, c.file, q, "score updated at index [%s]" % k, "%s" % [m[1] for m in ms], fn.lineno)
         tw = [w for w in p.writes if w[0].startswith("self.Times[")]
-        okt = len(tw) == 1 and tw[0][0] == "self.Times[%s]" % k and tw[0][1] in ("self.Times[%s] += 1" % k,)
+        okt = len(tw) == 1 and tw[0][0] == "self.Times[%s]" % k and tw[0][1] in (
+            "self.Times[%s] += 1" % k, "self.Times[%s] = self.Times[%s] + 1" % (k, k))
         ctx.ob("R10-IDX", okt, c.file, q, "count incremented once at index [%s]" % k, "%s" % [w[1] for w in tw], fn.lineno)
-        # order: the index expression must not change between the three uses
-        seq = [x for x in p.seq]
-        first = None
-        changed = False
-        for kind, x in seq:
-            if kind == "ev" and x[0] == "learner":
-                first = True
-            if kind == "w" and first and x.split("[")[0] in RT.deps_of_src(k if "self." in k else "0"):
-                # a write to the index variable before the last use of it
-                pass
-        # explicit: the statement that changes the index comes after the score and count updates
+        # the index state must not change between the three uses: since aliases are invalidated on writes, the three
+        # designators above were expanded at their own program points; equal text therefore means equal state
+        seq = list(p.seq)
         idx_deps = RT.deps_of_src(k) if "self." in k else set()
-        pos_last_use = max([i for i, (kind, x) in enumerate(seq) if (kind == "ev" and x[0] in ("learner", "mean")) or
-                            (kind == "w" and x.startswith("self.Times["))] or [0])
-        early = [x for i, (kind, x) in enumerate(seq) if kind == "w" and i < pos_last_use and x.split("[")[0] in idx_deps]
+        pos_last_use = max([i for i, it in enumerate(seq) if (it[0] == "ev" and it[1][0] in ("learner", "mean")) or
+                            (it[0] == "w" and it[1].startswith("self.Times["))] or [0])
+        early = [it[1] for i, it in enumerate(seq) if it[0] == "w" and i < pos_last_use and it[1].split("[")[0] in idx_deps]
         ctx.ob("R10-IDX", not early, c.file, q, "index [%s] is stable across learner / score / count" % k,
                "no write to %s before the last of the three updates" % sorted(idx_deps) if not early else "index state %s changes in between" % early, fn.lineno)
 
@@ -115,7 +109,7 @@ def check_means(ctx):
            "count expression: %s" % a, fn.lineno)
     # counter: +1 per creation-stage round, reset to 0 exactly when a learner's phase ends (so it counts this learner's rewards)
     g = C.CFG(fn)
-    incs = [n for n in g.nodes if n.kind == "stmt" and norm_src(n.ast) == "self.counter += 1"]
+    incs = [n for n in g.nodes if n.kind == "stmt" and SH.is_increment(n.ast, "self.counter")]
     ok = len(incs) == 1 and any(a2 == ("<=", "self.N", "0.5 * self.Dmax * np.log(self.n / np.log(self.n))") for a2, t, lab, e in C.facts_at(g, incs[0]))
     ctx.ob("R10-MEAN", ok, c.file, q, "self.counter += 1 once per creation-stage round", "%d site(s)" % len(incs), fn.lineno)
     b = rm.get("POO:self.V_reward[self.algo_counter]")
